@@ -495,6 +495,32 @@ def run(tier, seed, which="C03"):
                 ob.update({"verdict": "inconclusive", "message": "engine-S counterexample (%s) did not reproduce on the real LogInnerManager (%s %s)" % (ob["message"], rr["outcome"], rr["message"])})
             else:
                 ob["message"] = "%s [real code: %s]" % (ob["message"], rr["message"][:300])
+    if which == "C02":
+        # the level above one file: reads and rollover over the catalogue, a replicated batch at the end of a file
+        from . import c03files
+        from .common import native_scenarios
+        rob = c03files.run_reads(tier, seed)
+        if rob.get("verdict") == "violation":
+            from lib import native as _n
+            pth = _n.write_replay("C02", "c02", "model", [], {"engine": "smt", "mode": "model-only", "obligation": rob["harness"], "message": rob["message"], "model": rob.get("counterexample")})
+            rob["replay_path"] = pth
+            rob["replay"] = {"path": pth, "outcome": "model-only", "message": "catalogue and read range / rollover index for RaftLogManager (a rollover needs ~259 000 records natively)"}
+        bob = c03files.run_batch(tier, seed)
+        if bob.get("verdict") == "violation":
+            rr = native_scenarios("C02", "violation", ["replicated_batch_fills_a_file"], bob["message"], {"obligation": bob["harness"], "model": bob.get("counterexample")})
+            bob["replay_path"] = rr["path"]
+            bob["replay"] = {"path": rr["path"], "outcome": rr["outcome"], "message": rr["message"]}
+            if rr["outcome"] != "reproduced":
+                bob.update({"verdict": "inconclusive", "message": "engine-S counterexample (%s) did not reproduce on a real node (%s %s)" % (bob["message"], rr["outcome"], rr["message"])})
+            else:
+                bob["message"] = "%s [real node, through RaftStorage::replicate_to_log: %s]" % (bob["message"], rr["message"][:400])
+        elif bob.get("verdict") == "discharged" and rob.get("verdict") == "discharged":
+            nv = native_scenarios("C02", "validate", ["replicated_batch_fills_a_file"])
+            info["translator_validation_node"] = {"outcome": nv["outcome"], "message": nv["message"], "path": nv["path"]}
+            if nv["outcome"] != "passed":
+                obligations.append({"engine": "smt", "harness": "s02_node_validation", "verdict": "inconclusive", "queries": 0, "solver_s": 0,
+                                    "message": "the catalogue-level obligations are discharged but a real node does not replicate across a log-file rollover: %s" % nv["message"]})
+        extra_obs = [rob, bob]
     if which == "C03":
         # the level above one file: which files of the catalogue a truncation reaches (RaftLogManager::strip_log_to_index)
         from . import c03files
@@ -518,6 +544,8 @@ def run(tier, seed, which="C03"):
     val = native_validate(obligations, seed, 6 if tier == "quick" else 24)
     if which == "C04":
         obligations.append(index_ob)
+    if which == "C02":
+        obligations.extend(extra_obs)
     for ob in obligations:
         ob.pop("_ok_paths", None)
         ob.pop("_ops", None)
